@@ -109,7 +109,8 @@ def arg_menu():
     return [((1.0,), {}), ((float("1.0"),), {}), ((2.0,), {}), ((a1,), {}), ((np.array([1.0, 2.0]),), {}),
             ((np.array([1.0, 3.0]),), {}), (({"x": 1.0},), {}), (({"x": 1.0},), {}), (({"x": 2.0},), {}),
             ((1.0,), {"k": 2}), ((1.0,), {"k": 3}), ((np.array([1.0, 2.0, 3.0]),), {}),
-            ((None,), {}), (({"y": 1.0},), {})]  # the last two make the function raise (TypeError / KeyError)
+            ((None,), {}), (({"y": 1.0},), {}),  # these two make the function raise (TypeError / KeyError)
+            ((1.0, 2), {}), ((1.0, 3), {}), ((2.0, 2), {})]  # second positional argument (a prefix of it is another call)
 
 
 def same_value(a, b):
@@ -214,9 +215,17 @@ def check_expr(expr, order):
     """Evaluate one expression through the library on the three record representations in the given order."""
     from histogrammar.util import serializable
 
+    from histogrammar.util import named
+
     args = {"expr": expr, "order": list(order)}
     fv = free_vars(expr)
     f = serializable(expr)
+    # the same expression under an explicit name that other wrappers in this process also use, and under a name that
+    # is itself the text of another expression: names must never decide what is evaluated
+    g = named("q", expr)
+    other = "y" if expr.strip() != "y" else "x"
+    k = named(other, expr)
+    plain_other = serializable(other)
     for rep in order:
         for x, y in VALUES:
             if rep == "dict":
@@ -236,6 +245,18 @@ def check_expr(expr, order):
             if not ok:
                 return [FW.violation(PROP, "expr", "string expression on %s record" % rep, "differs-from-python-eval", args,
                                      {"rep": rep, "x": x, "y": y, "got": repr(got), "expected": repr(want)})]
+            if rep == "dict":
+                for nm, w_, exp_ in (("named('q', expr)", g, want), ("named(<other expr>, expr)", k, want),
+                                     ("plain <other expr> after a wrapper was named like it", plain_other,
+                                      py_eval(other, x, y))):
+                    try:
+                        got2 = ("ok", w_(d))
+                    except Exception as e:
+                        got2 = ("exc", type(e).__name__)
+                    ok2 = got2[0] == exp_[0] and (got2[1] == exp_[1] if got2[0] == "exc" else same_num(got2[1], exp_[1]))
+                    if not ok2:
+                        return [FW.violation(PROP, "expr", "named string expression", "name-decides-evaluation", args,
+                                             {"wrapper": nm, "x": x, "y": y, "got": repr(got2), "expected": repr(exp_)})]
     return []
 
 
@@ -352,7 +373,7 @@ def run(tier, seed):
         acc.merge(a)
     ev = sum(acc.c.get(k, 0) for k in ("wrapper_words", "call_sequences", "expression_evaluations", "aggregator_streams"))
     acc.samples = [{"word": ["cached", ["named", "n1"], "serializable"], "base": "lambda"},
-                   {"wrapper": "cached(named)", "calls": "every sequence of <=%d calls over 14 argument tuples (two of which make the function raise)" % maxlen_calls},
+                   {"wrapper": "cached(named)", "calls": "every sequence of <=%d calls over 17 argument tuples (two make the function raise, three pass a second positional argument)" % maxlen_calls},
                    {"expr": exprs[len(exprs) // 2], "orders": "all 6 orders of dict / attribute / bare-scalar records"}]
     cov = {
         "evaluations": ev,
@@ -360,7 +381,7 @@ def run(tier, seed):
         "rule": "(i) every word of length <=4 over {serializable, cached, named(n1), named(n2)} applied to a lambda, a def "
                 "and a string: class, name, == and hash must depend only on the set of wrappers; a name applied to an "
                 "already named function must raise ValueError (def and string carry an implicit name once wrapped); (ii) "
-                "every sequence of <=%d calls over 14 argument tuples (two of which make the function raise) (identical / equal-but-distinct / different scalars, "
+                "every sequence of <=%d calls over 17 argument tuples (two make the function raise, three pass a second positional argument) (identical / equal-but-distinct / different scalars, "
                 "arrays, dicts, keyword arguments) through 6 wrappers vs the bare function; (iii) %d expressions of the "
                 "grammar evaluated through the library on dict, attribute and bare-scalar records in all 6 orders vs "
                 "Python's eval; (iv) 4 aggregators built from strings vs functions on every stream of <=%d records (row-wise "
